@@ -6,19 +6,22 @@ EXTENDS Node, Json, IOUtils, SequencesExt
 VARIABLE hist
 
 CatData == [F1 |-> <<"X", "Y">>, F2 |-> <<"X", "Y", "Z">>, F3 |-> <<"X", "Y">>,
-            F4 |-> <<"Z", "Z">>, F5 |-> <<"Y">>, F6 |-> <<"X", "T">>]
+            F4 |-> <<"Z", "Z">>, F5 |-> <<"Y">>, F6 |-> <<"X", "T">>, F7 |-> <<"Z", "T">>]
 CatOther == [F1 |-> {"M:F1", "m:F1:0", "m:F1:1", "r:F1"}, F2 |-> {"M:F2", "m:F1:0", "m:F2:0", "r:F2"},
              F3 |-> {"M:F3", "m:F1:0", "m:F1:1", "r:F1"}, F4 |-> {"M:F4", "m:F1:0", "m:F4:0", "r:F4"},
-             F5 |-> {"M:F5", "m:F1:0", "m:F5:0"},         F6 |-> {"M:F6", "m:F1:0", "m:F6:0", "r:F6"}]
+             F5 |-> {"M:F5", "m:F1:0", "m:F5:0"},         F6 |-> {"M:F6", "m:F1:0", "m:F6:0", "r:F6"},
+             F7 |-> {"M:F7", "m:F1:0", "m:F7:0", "r:F7"}]
 
 FilesA == {"F1", "F2", "F4"}     \* prefix extension, repeated chunk
 FilesB == {"F1", "F3", "F5"}     \* identical content under two names, single-chunk file that is another's data chunk
 FilesC == {"F2", "F5", "F6"}     \* chunk-aligned prefix with a short tail
 FilesD == {"F1", "F2"}
+FilesE == {"F2", "F4", "F7"}     \* one chunk (Z) in three files, twice in one of them
 DataA == [f \in FilesA |-> CatData[f]]  OtherA == [f \in FilesA |-> CatOther[f]]
 DataB == [f \in FilesB |-> CatData[f]]  OtherB == [f \in FilesB |-> CatOther[f]]
 DataC == [f \in FilesC |-> CatData[f]]  OtherC == [f \in FilesC |-> CatOther[f]]
 DataD == [f \in FilesD |-> CatData[f]]  OtherD == [f \in FilesD |-> CatOther[f]]
+DataE == [f \in FilesE |-> CatData[f]]  OtherE == [f \in FilesE |-> CatOther[f]]
 GenCaps == {1, 3, 6}
 
 Depth == IF "VERIF_DEPTH" \in DOMAIN IOEnv THEN atoi(IOEnv.VERIF_DEPTH) ELSE 6
